@@ -31,7 +31,8 @@ def _process_step_expression(
         lang_graph: LanguageGraph,
         model: Model,
         target_assets: list[Any],
-        step_expression: dict[str, Any]
+        step_expression: dict[str, Any],
+        evaluated: Optional[dict] = None
     ) -> tuple[list, Optional[str]]:
     """
     Recursively process an attack step expression.
@@ -45,6 +46,8 @@ def _process_step_expression(
                       to. Initially it will contain the asset to which the
                       attack step belongs
     step_expression - a dictionary containing the step expression
+    evaluated       - used by the recursion only: the results of the set
+                      operators already evaluated for a single asset
 
     Return:
     A tuple pair containing a list of all of the target assets and the name of
@@ -57,6 +60,9 @@ def _process_step_expression(
             'Processing Step Expression:\n%s',
             json.dumps(step_expression, indent = 2)
         )
+
+    if evaluated is None:
+        evaluated = {}
 
     match (step_expression['type']):
         case 'attackStep':
@@ -72,8 +78,15 @@ def _process_step_expression(
                 # collected, it is not applied to the pooled operands.
                 new_target_assets = []
                 for target_asset in target_assets:
-                    (asset_targets, _) = _process_step_expression(
-                        lang_graph, model, [target_asset], step_expression)
+                    # (each asset once: nested set operators would
+                    # otherwise be evaluated again and again for the same
+                    # asset, as many times as there are paths to it)
+                    evaluated_key = (id(step_expression), target_asset.id)
+                    if evaluated_key not in evaluated:
+                        evaluated[evaluated_key] = _process_step_expression(
+                            lang_graph, model, [target_asset],
+                            step_expression, evaluated)[0]
+                    asset_targets = evaluated[evaluated_key]
                     for asset in asset_targets:
                         if next((known for known in new_target_assets \
                             if known.id == asset.id), None) is None:
@@ -83,9 +96,11 @@ def _process_step_expression(
             # The set operators are used to combine the left hand and right
             # hand targets accordingly.
             lh_targets, lh_attack_steps = _process_step_expression(
-                lang_graph, model, target_assets, step_expression['lhs'])
+                lang_graph, model, target_assets, step_expression['lhs'],
+                evaluated)
             rh_targets, rh_attack_steps = _process_step_expression(
-                lang_graph, model, target_assets, step_expression['rhs'])
+                lang_graph, model, target_assets, step_expression['rhs'],
+                evaluated)
 
             new_target_assets = []
             match (step_expression['type']):
@@ -120,7 +135,8 @@ def _process_step_expression(
                     variable_step_expr = lang_graph._get_variable_for_asset_type_by_name(
                         target_asset.type, step_expression['name'])
                     return _process_step_expression(
-                        lang_graph, model, target_assets, variable_step_expr)
+                        lang_graph, model, target_assets, variable_step_expr,
+                        evaluated)
 
                 else:
                     logger.error(
@@ -158,7 +174,7 @@ def _process_step_expression(
             while frontier:
                 (step_targets, _) = _process_step_expression(
                     lang_graph, model, frontier,
-                    step_expression['stepExpression'])
+                    step_expression['stepExpression'], evaluated)
                 frontier = []
                 for asset in step_targets:
                     if asset.id not in reached_ids:
@@ -173,7 +189,7 @@ def _process_step_expression(
             # repeats every result as many times as there are targets).
             (new_target_assets, _) = _process_step_expression(
                 lang_graph, model, target_assets,
-                step_expression['stepExpression'])
+                step_expression['stepExpression'], evaluated)
 
             selected_new_target_assets = []
             for asset in new_target_assets:
@@ -203,9 +219,10 @@ def _process_step_expression(
             # Apply the right hand step expression to left hand step
             # expression target assets.
             lh_targets, _ = _process_step_expression(
-                lang_graph, model, target_assets, step_expression['lhs'])
+                lang_graph, model, target_assets, step_expression['lhs'],
+                evaluated)
             return _process_step_expression(lang_graph, model, lh_targets,
-                step_expression['rhs'])
+                step_expression['rhs'], evaluated)
 
 
         case _:
